@@ -143,6 +143,16 @@ func scenarios() []scenario {
 			a, b, c := mkTx(s[0], 0, 1000, p(1)), mkTx(s[0], 1, 1000, p(2)), mkTx(s[0], 2, 1000, p(3))
 			return []*op{addOp(a), addOp(b), {Kind: "reorg"}, addOp(c), {Kind: "reorg", Trig: c.ID, During: rmOp(a)}, {Kind: "reorg"}}
 		}},
+		{name: "replace-later-nonce-while-reorg-finds-earlier-one-invalid", cfg: poolCfg{Max: 8, Per: 8, Diff: 1}, cont: true, ops: func() []*op {
+			a, b, c := mkTx(s[0], 0, 1000, p(1)), mkTx(s[0], 1, 1000, p(2)), mkTx(s[0], 2, 1000, p(3))
+			return []*op{addOp(a), addOp(b), addOp(c), {Kind: "verdict", ID: b.ID, Verdict: labi.TxVerifyResultInvalid},
+				{Kind: "reorg", Trig: b.ID, During: addOp(mkTx(s[0], 2, 2000, p(4)))}, {Kind: "reorg"}}
+		}},
+		{name: "replace-and-refill-while-reorg-finds-first-invalid", cfg: poolCfg{Max: 8, Per: 8, Diff: 1}, cont: true, ops: func() []*op {
+			a, b := mkTx(s[0], 0, 1000, p(1)), mkTx(s[0], 1, 1000, p(2))
+			return []*op{addOp(a), addOp(b), {Kind: "verdict", ID: a.ID, Verdict: labi.TxVerifyResultInvalid},
+				{Kind: "reorg", Trig: a.ID, During: addOp(mkTx(s[0], 1, 2000, p(4)))}, addOp(mkTx(s[0], 0, 1500, p(5))), {Kind: "reorg"}}
+		}},
 		{name: "invalid-in-the-middle-drops-suffix", cfg: poolCfg{Max: 8, Per: 8, Diff: 1}, ops: func() []*op {
 			a, b, c := mkTx(s[0], 0, 1000, p(1)), mkTx(s[0], 1, 1000, p(2)), mkTx(s[0], 2, 1000, p(3))
 			return []*op{addOp(a), addOp(b), addOp(c), {Kind: "verdict", ID: b.ID, Verdict: labi.TxVerifyResultInvalid}, {Kind: "reorg"}}
